@@ -302,7 +302,8 @@ def possibly_undefined(cfg, rd):
             for ch in ast.iter_child_nodes(e):
                 yield from loads(ch, bound)
         walrus = {x.target.id for x in ast.walk(a) if isinstance(x, ast.NamedExpr)}
-        for nm in loads(a, set()):
+        aug = [a.target] if isinstance(a, ast.AugAssign) and isinstance(a.target, ast.Name) else []      # `x += 1` reads x first
+        for nm in list(loads(a, set())) + aug:
             if nm.id in locals_ and nm.id not in IN[id(n)] and nm.id not in walrus:
                 out.append((n, nm))
     return out
